@@ -363,8 +363,52 @@ func run(t *testing.T, tape *simrt.Tape) *hx.Outcome {
 			if d(3) == 0 {
 				in, _ = mutate(d, gzMember(tarBytes))
 			}
+			prio := []string{"a", "nosuch"}[:d(3)]
+			if d(2) == 0 {
+				// a well-formed tar with hostile structure: several entries of types the builder does not
+				// support (more of them than build workers), hard links in a cycle that is also prioritized,
+				// links to missing names, zero-length and oversized-looking entries
+				var tb bytes.Buffer
+				tw := tar.NewWriter(&tb)
+				nbad := d(9)
+				for i := 0; i < nbad; i++ {
+					tw.WriteHeader(&tar.Header{Name: fmt.Sprintf("u%d", i), Typeflag: []byte{tar.TypeCont, 'S', 'V', 'M', 'D'}[d(5)], Mode: 0644, Format: tar.FormatGNU})
+				}
+				if d(2) == 0 {
+					tw.WriteHeader(&tar.Header{Name: "ca", Typeflag: tar.TypeLink, Linkname: "cb", Mode: 0644})
+					tw.WriteHeader(&tar.Header{Name: "cb", Typeflag: tar.TypeLink, Linkname: "ca", Mode: 0644})
+					if d(2) == 0 {
+						prio = append(prio, "ca")
+					}
+				}
+				if d(3) == 0 {
+					tw.WriteHeader(&tar.Header{Name: "dangling", Typeflag: tar.TypeLink, Linkname: "nowhere", Mode: 0644})
+					prio = append(prio, "dangling")
+				}
+				if d(2) == 0 { // (without any payload the builder gives every entry a part of its own)
+					tw.WriteHeader(&tar.Header{Name: "a", Typeflag: tar.TypeReg, Mode: 0644, Size: 3})
+					tw.Write([]byte("abc"))
+				}
+				tw.Close()
+				in = tb.Bytes()
+				notes = append(notes, fmt.Sprintf("hostile-tar(unsupported=%d)", nbad))
+			}
+			if d(4) == 0 {
+				// the Writer API (used by lossless conversion) on a stream that only looks like gzip
+				bad := append([]byte{0x1f, 0x8b, 0x08}, in[:min(len(in), 40)]...)
+				for _, lossless := range []bool{false, true} {
+					w := estargz.NewWriter(io.Discard)
+					w.ChunkSize = cs
+					if lossless {
+						w.AppendTarLossLess(bytes.NewReader(bad))
+					} else {
+						w.AppendTar(bytes.NewReader(bad))
+					}
+				}
+				notes = append(notes, "writer-on-fake-gzip")
+			}
 			b, err := estargz.Build(io.NewSectionReader(bytes.NewReader(in), 0, int64(len(in))), estargz.WithChunkSize(cs), estargz.WithParallelism(1+d(3)),
-				estargz.WithPrioritizedFiles([]string{"a", "nosuch"}[:d(3)]), estargz.WithAllowPrioritizeNotFound(new([]string)))
+				estargz.WithPrioritizedFiles(prio), estargz.WithAllowPrioritizeNotFound(new([]string)))
 			if err == nil {
 				io.Copy(io.Discard, b)
 				b.Close()
@@ -565,13 +609,13 @@ func run(t *testing.T, tape *simrt.Tape) *hx.Outcome {
 
 func TestC04(t *testing.T) {
 	hx.Main(t, hx.Prop{
-		ID:   "C04",
-		Rule: "each run belongs to one campaign: (1) a blob built by the real builder (gzip eStargz, zstd:chunked, external-TOC incl. the external TOC itself) and mutated by 1-3 byte-level operations biased to the footer and TOC region (bit flips, maxed/zeroed runs, truncation, garbage, duplicated/deleted/swapped slices); (2) an adversarial TOC from a grammar (hard-link cycles and links to directories/ancestors/self, negative and huge sizes/offsets/chunk fields, overlapping and unsorted chunks, empty/dot/dot-dot/duplicate names, missing or malformed digests, unknown types, trees up to 12000 levels deep, odd versions, trailing whitespace) wrapped into a well-formed blob and verified with its real digest; (3) an honest blob behind a hostile transport (bogus Content-Range/Content-Length/Content-Type, odd status codes and Locations, empty or mutated bodies); (4) mutated tar/gzip handed to Build and Unpack. The layer is resolved through the full stack (both metadata stores, memory/dir caches, passthrough), mounted verified or unverified, walked with a bounded tree walk (readdir, lookup, getattr, xattrs, readlink, open, reads at extreme offsets) while Prefetch and BackgroundFetch run. Any panic, fatal error (child death under ulimit -v 8 GiB), dead loop (60 s real time) or simulated hang is a violation. non-trivial = the input was mutated or mounted; distinct = schedule hash x campaign x mutation list",
+		ID:               "C04",
+		Rule:             "each run belongs to one campaign: (1) a blob built by the real builder (gzip eStargz, zstd:chunked, external-TOC incl. the external TOC itself) and mutated by 1-3 byte-level operations biased to the footer and TOC region (bit flips, maxed/zeroed runs, truncation, garbage, duplicated/deleted/swapped slices); (2) an adversarial TOC from a grammar (hard-link cycles and links to directories/ancestors/self, negative and huge sizes/offsets/chunk fields, overlapping and unsorted chunks, empty/dot/dot-dot/duplicate names, missing or malformed digests, unknown types, trees up to 12000 levels deep, odd versions, trailing whitespace) wrapped into a well-formed blob and verified with its real digest; (3) an honest blob behind a hostile transport (bogus Content-Range/Content-Length/Content-Type, odd status codes and Locations, empty or mutated bodies); (4) mutated tar/gzip handed to Build and Unpack. The layer is resolved through the full stack (both metadata stores, memory/dir caches, passthrough), mounted verified or unverified, walked with a bounded tree walk (readdir, lookup, getattr, xattrs, readlink, open, reads at extreme offsets) while Prefetch and BackgroundFetch run. Any panic, fatal error (child death under ulimit -v 8 GiB), dead loop (60 s real time) or simulated hang is a violation. non-trivial = the input was mutated or mounted; distinct = schedule hash x campaign x mutation list",
 		Run:              run,
 		PanicIsViolation: true,
 		HangIsViolation:  true,
 		CrashIsViolation: true,
-		Components: map[string]string{"estargz, zstdchunked, externaltoc parsers; metadata/memory; db store on bolt; fs/layer node; fs/reader; fs/remote": "real (instrumented copy)", "registry": "stub: Byzantine bytes / hostile HTTP metadata", "kernel FUSE": "stub (node interfaces)"},
-		Assumptions: []string{"legacy stargz footers are only reached through mutation (the builder cannot emit them)", "memory bound: 8 GiB address space per child"},
+		Components:       map[string]string{"estargz, zstdchunked, externaltoc parsers; metadata/memory; db store on bolt; fs/layer node; fs/reader; fs/remote": "real (instrumented copy)", "registry": "stub: Byzantine bytes / hostile HTTP metadata", "kernel FUSE": "stub (node interfaces)"},
+		Assumptions:      []string{"legacy stargz footers are only reached through mutation (the builder cannot emit them)", "memory bound: 8 GiB address space per child"},
 	})
 }
